@@ -176,6 +176,11 @@ def run(tier):
     for mx in ([7] if quick else [8, 9]):
         cfg = "SPECIFICATION Spec\nCONSTANTS Parts = {1, 2} MaxEv = %d GlobalSeq = FALSE\nINVARIANTS NoSharedRows\nCHECK_DEADLOCK FALSE\n" % mx
         seqfam.model(res, seqfam.SEM, "CepSkip", cfg, "CepSkip", {"Parts": 2, "MaxEv": mx, "GlobalSeq": False})
+    # greedy emission (pending candidates, leftmost-first, flush), pattern-agnostic: for EVERY behaviour of the runs (die / extend / extend
+    # into an accepting state / complete, one run per start) the matches reported after the flush are the leftmost-longest ones
+    mx = 4 if quick else 5
+    cfg = "SPECIFICATION Spec\nCONSTANTS MaxEv = %d FixOrder = TRUE KeepPrefix = TRUE\nINVARIANTS LeftmostLongest Disjoint\nCHECK_DEADLOCK FALSE\n" % mx
+    seqfam.model(res, seqfam.SEM, "CepPending", cfg, "CepPending", {"MaxEv": mx, "FixOrder": True, "KeepPrefix": True}, timeout=1500)
     return res.finish()
 
 
